@@ -12,7 +12,7 @@ import shutil
 import vlib
 from vlib import ToolError, log
 
-TIERS = {"quick": dict(cfg="TimeCtlQuick.cfg", shards=16), "thorough": dict(cfg="TimeCtlFull.cfg", shards=16)}
+TIERS = {"quick": dict(cfg="TimeCtlQuick.cfg", shards=16, rnd=40), "thorough": dict(cfg="TimeCtlFull.cfg", shards=16, rnd=1500)}
 SIDE = {"w": "position startpos", "b": "position startpos moves e2e4"}
 
 
@@ -61,8 +61,16 @@ def run(prop, tier, seed):
         vlib.tlc_must_be_clean(res, "TimeCtl")
         R.add_tlc(res)
         lines = [json.loads(l) for l in open(emit)]
-        if len(lines) != res.distinct:
+        if len(lines) != res.distinct:  # (grid only; random lines are added below)
             raise ToolError("TimeCtl emitted %d lines for %d states" % (len(lines), res.distinct))
+        # random go commands beyond the grid (TLC -simulate over the same module): clocks of several magnitudes,
+        # increments anywhere between 0 and twice the clock
+        remit = os.path.join(work, "go_random.ndjson")
+        rres = vlib.run_tlc("TimeCtl", "TimeCtlRandom.cfg", workers=1, simulate=T["rnd"], depth=120, seed=seed * 7 + 1, emit_to=remit, timeout=1800)
+        vlib.tlc_must_be_clean(rres, "TimeCtl random")
+        rlines = [json.loads(l) for l in open(remit)]
+        R.coverage["transitions"] += rres.generated
+        lines += rlines
         # shard so that all commands with the same own-clock key land in the same shard (the memo is per trace)
         def key(g):
             import zlib
@@ -91,6 +99,7 @@ def run(prop, tier, seed):
                 R.sample(json.loads(open(tp).read().splitlines()[1]))
         R.coverage["traces_validated_against_impl"] = T["shards"]
         R.coverage["go_lines"] = len(lines)
+        R.coverage["random_go_lines_beyond_the_grid"] = len(rlines)
         R.coverage["exhaustive"] = True
         R.coverage["grid"] = T["cfg"]
         R.coverage["events_matched"] = events
